@@ -423,7 +423,12 @@ class ValueTransformation(DetectionItemTransformation):
                         # Unlike FieldMappingTransformation (which may add wildcards to values
                         # making round-tripping incorrect), ValueTransformation operates on the
                         # values directly and the new values serve as the serializable original.
-                        r.original_value = r.value.copy()
+                        if r.modifiers:
+                            # The transformed values are the result of the modifiers; writing
+                            # them out under the modifier key would apply the modifiers again.
+                            r.disable_conversion_to_plain()
+                        else:
+                            r.original_value = r.value.copy()
                     detection.detection_items[i] = r
                     self.processing_item_applied(r)
 
